@@ -373,6 +373,7 @@ func allKinds() []kindSpec {
 		{"coll", "string:root"}, {"coll", "string:de"}, {"coll", "string:sv"}, {"coll", "string:ennum"},
 		{"coll", "bytes:root"}, {"coll", "bytes:de"}, {"coll", "runes:root"},
 		{"comp", ""},
+		{"raw", ""},
 	}
 }
 
@@ -483,6 +484,23 @@ func (g *gen) history(tid string, ks kindSpec, prof string, nops int) {
 			t, _ := collKeyText(c, buf, g.collString())
 			return t
 		}
+	case kind == "raw":
+		// identity codec: length-prefixed byte strings (prefix-free, ordered by length then bytes)
+		bp := g.alphaPool(poolN)
+		mkraw := func(b []byte) string {
+			if len(b) > 255 {
+				b = b[:255]
+			}
+			return xhex(append([]byte{byte(len(b))}, b...))
+		}
+		seen := map[string]bool{}
+		for _, k := range bp {
+			if t := mkraw(k); !seen[t] {
+				seen[t] = true
+				pool = append(pool, t)
+			}
+		}
+		probe = func() string { return mkraw(g.alphaProbe(bp)) }
 	case strings.HasPrefix(kind, "comp:"):
 		// string fields come from one pool, so that they share long stems (compressed paths beyond the inline limit)
 		strs := g.alphaPool(6 + r.n(20))
@@ -543,6 +561,19 @@ func (g *gen) history(tid string, ks kindSpec, prof string, nops int) {
 	}
 	total := p.ins + p.del + p.srch + p.size + p.minmax + p.iter + p.bounded + p.rng + p.pfx
 	hasPfx := kind == "alpha" || kind == "coll"
+	emptyTreeQueries := func() {
+		g.emit("RNG %s %s %s -", tid, probe(), probe())
+		if kind == "alpha" || kind == "raw" {
+			g.emit("RNG %s %s x -", tid, probe())
+			g.emit("RNG %s x %s %s", tid, probe(), g.stops(p, 2))
+			g.emit("RNG %s x x -", tid)
+		}
+		g.emit("%s %s", pick(r, []string{"MIN", "MAX"}), tid)
+		g.emit("%s %s 2 -", pick(r, []string{"TOPK", "BOTK"}), tid)
+	}
+	if p.rng > 0 {
+		emptyTreeQueries()
+	}
 	live := 0
 	// phases: grow, churn, shrink, regrow — so that every node class is crossed both ways
 	for i := 0; i < nops; i++ {
@@ -578,7 +609,7 @@ func (g *gen) history(tid string, ks kindSpec, prof string, nops int) {
 			g.emit("%s %s %x %s", pick(r, []string{"TOPK", "BOTK"}), tid, n, g.stops(p, 4))
 		case x < ins+del+p.srch+p.size+p.minmax+p.iter+p.bounded+p.rng:
 			a, b := probe(), probe()
-			if kind == "alpha" && r.chance(10) {
+			if (kind == "alpha" || kind == "raw") && r.chance(10) {
 				b = "x"
 			}
 			if r.chance(10) {
@@ -637,6 +668,9 @@ func (g *gen) history(tid string, ks kindSpec, prof string, nops int) {
 		g.emit("TOPK %s 3 -", tid)
 		if kind != "coll" {
 			g.emit("RNG %s %s %s -", tid, pool[0], pool[len(pool)-1])
+		}
+		if p.rng > 0 {
+			emptyTreeQueries()
 		}
 		g.emit("S %s %s", tid, pool[0])
 		g.emit("D %s %s", tid, pool[0])
@@ -1098,6 +1132,13 @@ func genMain(args []string) {
 						continue
 					}
 				}
+				if h%8 == 6 {
+					dk := denseKinds[(idx*hpf+h/8)%len(denseKinds)]
+					if len(parts) <= 2 || strings.HasPrefix(dk.kind, parts[2]) {
+						g.dense(fmt.Sprintf("t%d", h), dk, prof)
+						continue
+					}
+				}
 				if h%4 == 1 && (ks.kind == "alpha" || ks.kind == "coll" || ks.kind == "comp") {
 					g.longpath(fmt.Sprintf("t%d", h), ks, prof)
 					continue
@@ -1111,7 +1152,7 @@ func genMain(args []string) {
 		case "multi": // interleaved histories on several trees of mixed kinds (C12)
 			g.multiFile(hpf, nops)
 		case "nul": // malformed stream: byte-string keys containing 0x00
-			g.nulFile(hpf, nops)
+			g.nulFile(hpf, nops, len(parts) > 1 && parts[1] == "clean")
 		case "closure": // closure[:<profile>]: exhaustive exploration of one small key universe per file; nops = depth bound, hpf = state bound
 			d, m := closureArgs(args)
 			debug.SetGCPercent(800) // hundreds of thousands of short-lived trees
@@ -1187,35 +1228,72 @@ func (g *gen) multiFile(groups, nops int) {
 
 // nulFile: the malformed stream — byte-string keys that contain 0x00 (the known
 // finding D2 lives here). Kept out of the main statistics.
-func (g *gen) nulFile(hists, nops int) {
+func (g *gen) nulFile(hists, nops int, clean bool) {
 	r := g.r
 	for h := 0; h < hists; h++ {
 		tid := fmt.Sprintf("z%d", h)
 		g.st.Histories++
 		g.emit("NEW %s alpha %s", tid, pick(r, []string{"string", "bytes"}))
 		bp := g.alphaPool(8 + r.n(10))
+		// one history in five holds a key AND an extension of it by 0x00... (the known finding D2: the terminated
+		// forms are not prefix-free); the others hold keys with embedded and trailing 0x00 bytes whose terminated
+		// forms ARE prefix-free, where everything must work (keys come back in their original form, ...)
+		d2 := h%5 == 0 && !clean
 		var pool []string
 		for _, k := range bp {
-			pool = append(pool, xhex(k))
-			if r.chance(50) {
-				k2 := append(append([]byte{}, k...), 0)
-				if r.chance(50) {
-					k2 = append(k2, pick(r, boundaryBytes))
-				}
-				pool = append(pool, xhex(k2))
+			kz := append(append([]byte{}, k...), 0)
+			switch r.n(4) {
+			case 0: // trailing 0x00
+			case 1: // trailing 0x00 0x00
+				kz = append(kz, 0)
+			case 2: // embedded 0x00
+				kz = append(kz, pick(r, boundaryBytes))
+			default:
+				kz = append(append(kz, pick(r, boundaryBytes)), 0)
 			}
+			if d2 {
+				pool = append(pool, xhex(k), xhex(kz))
+			} else if r.chance(60) {
+				pool = append(pool, xhex(kz))
+			} else {
+				pool = append(pool, xhex(k))
+			}
+		}
+		if !d2 { // drop every key that is another pool key followed by 0x00...: not the D2 shape
+			var keep []string
+			for _, k := range pool {
+				bad := false
+				for _, o := range pool {
+					if o != k && strings.HasPrefix(k, o+"00") {
+						bad = true
+					}
+				}
+				if !bad {
+					keep = append(keep, k)
+				}
+			}
+			pool = keep
+		}
+		if len(pool) == 0 {
+			continue
 		}
 		for i := 0; i < nops; i++ {
-			switch r.n(5) {
-			case 0, 1:
+			switch r.n(8) {
+			case 0, 1, 2:
 				g.emit("I %s %s %d", tid, pick(r, pool), 1+r.n(100))
-			case 2:
-				g.emit("D %s %s", tid, pick(r, pool))
 			case 3:
+				g.emit("D %s %s", tid, pick(r, pool))
+			case 4:
 				g.emit("S %s %s", tid, pick(r, pool))
+			case 5:
+				g.emit("%s %s -", pick(r, []string{"ALL", "BWD"}), tid)
+			case 6:
+				g.emit("%s %s", pick(r, []string{"MIN", "MAX", "SIZE"}), tid)
 			default:
-				g.emit("ALL %s -", tid)
+				g.emit("RNG %s %s %s -", tid, pick(r, pool), pick(r, pool))
 			}
 		}
+		g.emit("ALL %s -", tid)
+		g.emit("SIZE %s", tid)
 	}
 }
